@@ -113,6 +113,9 @@ pub struct SimCtx {
     pub stdout: Vec<u8>,
     pub stderr: Vec<u8>,
     pub capture_stdio: bool,
+    /// when set, the bytes every sandbox read returned are kept, per opened file, in order
+    pub capture_reads: bool,
+    pub reads: Vec<(String, Vec<u8>)>,
     in_shim: bool,
 }
 
@@ -138,6 +141,8 @@ impl SimCtx {
             stdout: Vec::new(),
             stderr: Vec::new(),
             capture_stdio: true,
+            capture_reads: false,
+            reads: Vec::new(),
             in_shim: false,
         }
     }
@@ -410,6 +415,14 @@ pub unsafe extern "C" fn read(fd: c_int, buf: *mut c_void, count: size_t) -> ssi
             }
             let r = unsafe { libc::syscall(libc::SYS_read, fd, buf, n) as ssize_t };
             let res = if r < 0 { -(get_errno() as i64) } else { r as i64 };
+            if c.capture_reads && r > 0 {
+                let got = unsafe { std::slice::from_raw_parts(buf as *const u8, r as usize) };
+                let key = format!("{}#{}", np, fd);
+                match c.reads.iter_mut().rev().find(|(k, _)| *k == key) {
+                    Some((_, b)) => b.extend_from_slice(got),
+                    None => c.reads.push((key, got.to_vec())),
+                }
+            }
             log(c, Call::Read, np, count as i64, res, fault);
             r
         }
